@@ -68,10 +68,17 @@ SELECTORS = [
     # field-type constructors applied to values of the current record (a verdict must not stick to the call site)
     "string(r.s) == 'abc'", "varint(r.n) > 2", "wstring(r.s) in ['a', 'ab']", "string(r.s) + 'x' == 'ax'",
     "net.ipaddress(r.ip) in net.ipnetwork('10.0.0.0/8')", "any(string(x) == 'a' for x in r.l)",
+    # helpers applied to a LIST field (they must not touch the record's own list) and the `fields` helper, which is
+    # bound to the current record's descriptor
+    "lower(r.l) == ['abc']", "upper(r.l) == ['ABC', 'A']", "field_contains(r, ['l'], ['a'])",
+    "field_equals(r, ['l', 's'], ['abc'])", "any(f.name == 'n' for f in fields('varint'))",
+    "any(f.name == 'port' for f in fields('uint16'))", "fields('string')", "any(f.name == 's' for f in fields('string')) and r.idx % 2 == 0",
 ]
 
 FAM_A = ["test/a", [["varint", "idx"], ["varint", "n"], ["varint", "m"], ["string", "s"], ["boolean", "b"],
                     ["datetime", "ts"], ["string[]", "l"], ["varint[]", "nums"]]]
+# another version of test/a: same type name, other fields (no n/m/l, a port instead)
+FAM_A2 = ["test/a", [["varint", "idx"], ["string", "s"], ["uint16", "port"], ["boolean", "b"], ["string", "name"]]]
 FAM_B = ["test/b", [["varint", "idx"], ["string", "s"], ["float", "f"], ["bytes", "data"], ["uint16", "port"]]]
 FAM_C = ["net/c", [["varint", "idx"], ["net.ipaddress", "ip"], ["path", "p"], ["digest", "d"], ["uri", "u"],
                    ["string", "name"]]]
@@ -131,7 +138,7 @@ def _val(r, ftype, fname, adapter):
 
 
 def _gen_records(r, adapter, n):
-    fams = {"stream": [FAM_A, FAM_B, FAM_C], "jsonfile": [FAM_A, FAM_B, FAM_C], "avro": [FAM_AV],
+    fams = {"stream": [FAM_A, FAM_B, FAM_C, FAM_A2], "jsonfile": [FAM_A, FAM_B, FAM_C, FAM_A2], "avro": [FAM_AV],
             "csvfile": [FAM_CSV], "sqlite": [FAM_A, FAM_B]}[adapter]
     descs = list(fams)
     if adapter in TYPES_BY_ADAPTER and r.chance(40):
